@@ -129,12 +129,22 @@ mod model {
     impl<'a, K, V> Iterator for Iter<'a, K, V> {
         type Item = (&'a K, &'a V);
         fn next(&mut self) -> Option<Self::Item> {
-            while self.pos < SLOTS {
-                let i = self.pos;
-                self.pos += 1;
-                if let Some((k, v)) = &self.slots[i] {
-                    return Some((k, v));
-                }
+            // loop-free on purpose (a loop here is re-unwound inside every adaptor loop of the caller)
+            if self.pos == 0 {
+                self.pos = 1;
+                if let Some((k, v)) = &self.slots[0] { return Some((k, v)); }
+            }
+            if self.pos == 1 {
+                self.pos = 2;
+                if let Some((k, v)) = &self.slots[1] { return Some((k, v)); }
+            }
+            if self.pos == 2 {
+                self.pos = 3;
+                if let Some((k, v)) = &self.slots[2] { return Some((k, v)); }
+            }
+            if self.pos == 3 {
+                self.pos = 4;
+                if let Some((k, v)) = &self.slots[3] { return Some((k, v)); }
             }
             None
         }
